@@ -30,6 +30,10 @@ ASSUMPTIONS = [
     'a cut in the request stream races with replies already in flight; the oracle only uses what the relay recorded as delivered '
     'to the client in that run, so the race cannot cause a false alarm',
     'client timeout 0.3 s for blackhole faults, 5 s otherwise; one TCP simulator + relay per forked worker',
+    'stall clause: the connector is used directly in its documented form `with conn: harvest(issue(...))`; a reply is delivered up '
+    'to byte k (k >= 1; cases where the relay could not hand that part over within half the client timeout are not judged: a reply that is merely late is outside the fault model of the statement), then nothing for 1.2 s (client timeout 0.5 s), then the rest; the client may raise (the harness then reconnects) or '
+    'end the result stream, but a later transaction must never yield the delayed reply of the earlier one (results of the timed-out '
+    'transaction itself are only checked for correctness, not for their number: ending early is how harvest reports a timeout)',
 ]
 MIN_EVALUATIONS = {'quick': 800, 'thorough': 10000}
 
@@ -357,7 +361,101 @@ def pred_poll(case, stats):
         stats.extra['poll_s2c'] = len(relay.conns[0].s2c)
 
 
-CLAUSES = {'fault': pred_fault, 'sequence': pred_sequence, 'poll': pred_poll}
+
+# ------------------------------------------------------------------------------------------------
+# clause: stall -- a reply truncated by silence (not EOF) whose remainder arrives later, the connector used directly through
+# its documented `with conn: harvest(issue(...))` form
+
+STALL_TIMEOUT, STALL_HOLD = 0.5, 1.2
+
+
+def _transaction(conn, text, timeout):
+    from cpppo.server.enip import client
+    with conn:
+        return [val for idx, dsc, req, rpy, sts, val in conn.harvest(issued=conn.issue(client.parse_operations([text])), timeout=timeout)]
+
+
+def pred_stall(case, stats):
+    """case = {'first': op, 'second': op, 'cut': k}: transaction 1 reads `first`, its reply is delivered up to byte k, then
+    silence longer than the client's timeout, then the rest; transaction 2 (after the rest arrived) reads `second` -- on the same
+    connector if the client raised no error, on a new one otherwise.  Whatever transaction 2 yields must be correct for it."""
+    import time
+    from cpppo.server.enip import client
+    srv, relay = env()
+    reset_tags(srv)
+    relay.set_plan([None, None])
+    first, second = case['first'], case['second']
+    exp1 = list(INIT[first['tag']][first['elem']:first['elem'] + first['count']])
+    exp2 = list(INIT[second['tag']][second['elem']:second['elem'] + second['count']])
+    conn = client.connector(host=relay.address[0], port=relay.address[1], timeout=5.0)
+    reconnected = False
+    try:
+        warm = _transaction(conn, op_text(second), 5.0)
+        if len(warm) != 1 or not same(warm[0], exp2):
+            raise common.HarnessError('fault-free warm-up transaction wrong: %r' % (warm,))
+        rconn = relay.conns[0]
+        base = len(rconn.s2c)
+        rconn.spec = {'dir': 's2c', 'kind': 'stall', 'at': base + case['cut'], 'hold': STALL_HOLD}
+        t0 = time.time()
+        try:
+            got1, err1 = _transaction(conn, op_text(first), STALL_TIMEOUT), None
+        except Exception as exc:
+            got1, err1 = None, '%s: %s' % (type(exc).__name__, str(exc)[:120])
+        if rconn.part_sent_at is None or rconn.part_sent_at > t0 + STALL_TIMEOUT / 2:
+            # the truncated part did not demonstrably reach the client well before its timeout (a loaded machine): this would be
+            # a reply that is merely late, which is not in the statement's fault model -- not judged
+            stats.case(case, classes=['stall:not-judged:part-not-delivered-in-time'])
+            return
+        stats.case(case, nontrivial=True, classes=['stall:first-raised' if err1 else 'stall:first-returned:%d' % len(got1 or ())])
+        if got1 and not same(got1[0], exp1):
+            stats.fail('stall', 'stall:result-not-correct-for-its-own-request', case, observed={'transaction': 1, 'values': common.jsonable(got1)},
+                       expected=common.jsonable(exp1))
+        if not rconn.held and not rconn.released.is_set() and err1 is None and got1:
+            stats.count('stall:reply-shorter-than-cut')         # the whole reply fitted before the cut: nothing was held back
+            return
+        if err1 is not None:
+            try:
+                conn.close()
+            except Exception:
+                pass
+            conn = client.connector(host=relay.address[0], port=relay.address[1], timeout=5.0)
+            reconnected = True
+        rconn.released.wait(STALL_HOLD + 5.0)
+        time.sleep(0.05)
+        try:
+            got2, err2 = _transaction(conn, op_text(second), 5.0), None
+        except Exception as exc:
+            got2, err2 = None, '%s: %s' % (type(exc).__name__, str(exc)[:120])
+        stats.count('stall:second:' + ('raised' if err2 else 'returned') + (':reconnected' if reconnected else ':same-connector'))
+        if got2 and not same(got2[0], exp2):
+            stats.fail('stall', 'stall:later-transaction-yields-the-delayed-reply-of-an-earlier-one', case,
+                       observed={'transaction': 2, 'values': common.jsonable(got2), 'first_transaction_raised': err1,
+                                 'first_request_values': common.jsonable(exp1)},
+                       expected={'values': common.jsonable(exp2), 'or': 'an error'})
+    finally:
+        try:
+            conn.close()
+        except Exception:
+            pass
+        relay.wait_idle(2.0)
+
+
+@st.composite
+def stall_cases(draw):
+    def rd(tags):
+        tag = draw(st.sampled_from(tags))
+        L = len(INIT[tag])
+        e = draw(st.integers(0, L - 2))
+        return {'kind': 'read', 'tag': tag, 'elem': e, 'count': draw(st.integers(1, min(2, L - e)))}
+    first = rd(['V', 'W'])
+    second = rd(['V', 'W'])
+    if second == first:
+        second = dict(second, elem=(second['elem'] + 3) % (len(INIT[second['tag']]) - 2))
+    return {'first': first, 'second': second, 'cut': draw(st.one_of(st.integers(1, 70), st.sampled_from([1, 23, 24, 25, 44, 60])))}
+
+
+CLAUSES = {'fault': pred_fault, 'sequence': pred_sequence, 'poll': pred_poll, 'stall': pred_stall}
+STRATEGIES = {'stall': lambda skey: stall_cases()}
 
 
 def draw_exchanges(seed, n, maxops=12):
@@ -397,6 +495,10 @@ def poll_shard(job):
 def shard(job):
     if job[0] == 'poll':
         return poll_shard(job)
+    if job[0] == 'stall':
+        s = Stats()
+        common.hyp_run(s, stall_cases(), pred_stall, job[2], common.shard_seed(job[1], 700 + job[3]), 'stall', PID, skey=None)
+        return s
     kind, payload = job
     s = Stats()
     if kind == 'fault':
@@ -513,5 +615,6 @@ def run(tier, seed):
         jobs += [('poll', dict(ex, api='proxy'), 4, i, 4, 1 if thorough else 3) for i in range(4)]
     stats.exhaustive['poll.run'] = ('%d exchanges x 4 poll cycles on one connection: every %s cut offset of the reply stream after the first completed poll'
                                     % (len(pex), 'byte' if thorough else 'third'))
+    jobs += [('stall', seed, 12 if thorough else 3, i) for i in range(16)]
     common.parallel(shard, jobs, stats=stats)
     return stats
